@@ -17,7 +17,7 @@ from .cubes import build_index, dense_of
 
 PALETTE = [-3, -2, -1, 0, 1, 2, 3, 4, 5, 255, 256, 70000]
 MAX_LIVE = 6
-NON_INDEXES = ["dict", "list", "tuple", "none", "int", "str", "ndarray"]
+NON_INDEXES = ["dict", "list", "tuple", "none", "int", "str", "ndarray", "dict_of_entries", "to_dict", "set"]
 
 
 def _np():
@@ -570,7 +570,9 @@ class World(object):
                         self.flags.add("equal keys but different row ids")
             for kind in NON_INDEXES:
                 x = {"dict": {}, "list": [], "tuple": (), "none": None, "int": 0, "str": "x",
-                     "ndarray": np.zeros(a.ix.shape)}[kind]
+                     "ndarray": np.zeros(a.ix.shape), "set": set(),
+                     # plain dicts that look like the index's own entries are still not indexes
+                     "dict_of_entries": dict(a.ix), "to_dict": a.ix.to_dict()}[kind]
                 try:
                     eq = a.ix == x
                     ne = a.ix != x
